@@ -35,7 +35,8 @@ fn header_and_frames<const N: usize>() {
     }
     let f = match read_aseprite(&v[..]) {
         Ok(f) => f,
-        Err(_) => {
+        Err(e) => {
+            core::mem::forget(e);
             assert!(false, "well-formed file loads");
             return;
         }
@@ -56,22 +57,78 @@ fn header_and_frames<const N: usize>() {
     }
     assert!(f.num_layers() == 0 && f.num_tags() == 0 && f.slices().len() == 0 && f.palette().is_none());
     kani::cover!(depth == 8 && h[28] == 200);
-    kani::cover!(f.width() == 65535 && d[N - 1] == 65535);
+    kani::cover!(f.width() == 65535 && d.last().map_or(true, |x| *x == 65535));
     core::mem::forget(f);
 }
 #[kani::proof]
 #[kani::unwind(6)]
 #[kani::stub(alloc::fmt::format, crate::vklib::empty_format)]
 #[kani::stub(std::hash::RandomState::new, crate::vklib::fixed_random_state)]
-fn c01_q_header_one_frame() {
+fn c01_t_header_one_frame() {
     header_and_frames::<1>();
 }
 #[kani::proof]
 #[kani::unwind(6)]
 #[kani::stub(alloc::fmt::format, crate::vklib::empty_format)]
 #[kani::stub(std::hash::RandomState::new, crate::vklib::fixed_random_state)]
-fn c01_q_header_two_frames() {
+fn c01_t_header_two_frames() {
     header_and_frames::<2>();
+}
+
+/// header alone (frame count 0): canvas size, pixel format, transparent index with every unused header byte symbolic
+#[kani::proof]
+#[kani::unwind(8)]
+#[kani::stub(alloc::fmt::format, crate::vklib::empty_format)]
+#[kani::stub(std::hash::RandomState::new, crate::vklib::fixed_random_state)]
+fn c01_q_header_no_frames() {
+    let mut h: [u8; 128] = kani::any();
+    header(&mut h, 0);
+    let depth = rd16(&h, 12);
+    kani::assume(depth == 8 || depth == 16 || depth == 32);
+    let f = match read_aseprite(&h[..]) {
+        Ok(f) => f,
+        Err(e) => {
+            core::mem::forget(e);
+            assert!(false, "well-formed header loads");
+            return;
+        }
+    };
+    assert!(f.width() == rd16(&h, 8) as usize && f.height() == rd16(&h, 10) as usize, "canvas size");
+    assert!(f.num_frames() == 0 && f.num_layers() == 0);
+    match f.pixel_format() {
+        PixelFormat::Rgba => assert!(depth == 32 && f.transparent_color_index().is_none()),
+        PixelFormat::Grayscale => assert!(depth == 16 && f.transparent_color_index().is_none()),
+        PixelFormat::Indexed { transparent_color_index } => {
+            assert!(depth == 8 && f.is_indexed_color());
+            assert!(transparent_color_index == h[28] && f.transparent_color_index() == Some(h[28]), "transparent index");
+        }
+    }
+    kani::cover!(depth == 8 && h[28] == 200);
+    kani::cover!(f.width() == 65535 && f.height() == 1);
+    core::mem::forget(f);
+}
+
+/// per-frame header: the duration lands in that frame's slot, whichever chunk-count field is used
+#[kani::proof]
+#[kani::unwind(6)]
+#[kani::stub(alloc::fmt::format, crate::vklib::empty_format)]
+#[kani::stub(std::hash::RandomState::new, crate::vklib::fixed_random_state)]
+fn c01_q_frame_duration() {
+    let d: u16 = kani::any();
+    let fid: u16 = kani::any();
+    kani::assume(fid < 3);
+    let mut v: Vec<u8> = Vec::with_capacity(16);
+    empty_frame(&mut v, d);
+    let mut reader = AseReader::with(&v[..]);
+    let mut info = ParseInfo::new(3, 77);
+    let r = parse_frame(&mut reader, fid, PixelFormat::Rgba, &mut info);
+    assert!(r.is_ok());
+    for i in 0..3u16 {
+        assert!(info.frame_times[i as usize] == if i == fid { d } else { 77 }, "duration of frame i; others keep the header default");
+    }
+    kani::cover!(fid == 2 && d == 65535);
+    core::mem::forget(r);
+    core::mem::forget(info);
 }
 
 fn layer_payload(v: &mut Vec<u8>) -> (u16, u16, u8, u8) {
